@@ -37,6 +37,8 @@ type c18Scenario struct {
 	CtxDialer   bool   `json:"ctx_dialer"`
 	Cycles      int    `json:"cycles"`
 	NewNick     string `json:"welcome_nick"` // nick given by the first 001 ("" = no 001)
+	LateConfig  bool   `json:"late_config"`  // Server / SSL / Pass are set through Config() after Client(), before Connect()
+	Backlog     int    `json:"backlog"`      // lines queued behind a server that is not reading when the PINGs arrive
 	Lines       []c18Line
 }
 
@@ -55,6 +57,10 @@ func genC18(t *rapid.T) *c18Scenario {
 		CtxDialer:  rapid.Bool().Draw(t, "ctx_dialer"),
 		Cycles:     rapid.SampledFrom([]int{1, 1, 2, 3}).Draw(t, "cycles"),
 		NewNick:    rapid.SampledFrom([]string{"", "me", "other9", "Nick_1"}).Draw(t, "welcome_nick"),
+	}
+	sc.LateConfig = rapid.Bool().Draw(t, "late_config")
+	if rapid.IntRange(0, 3).Draw(t, "backlog") == 0 {
+		sc.Backlog = rapid.SampledFrom([]int{20, 33, 40, 80}).Draw(t, "backlog_n")
 	}
 	if rapid.Bool().Draw(t, "has_pass") {
 		sc.Pass = Q(rapid.SampledFrom([]string{"secret", "p w", ":x", "hunter2*"}).Draw(t, "pass"))
@@ -125,11 +131,21 @@ func runC18(sc *c18Scenario) *Violation {
 		PingFreq: time.Duration(sc.PingFreqMS) * time.Millisecond,
 		Configure: func(cfg *client.Config) {
 			cfg.Me.Ident, cfg.Me.Name = sc.Ident, string(sc.Name)
-			cfg.Pass = string(sc.Pass)
 			cfg.EnableCapabilityNegotiation = sc.CapNeg
+			if sc.LateConfig {
+				cfg.Server = "placeholder.invalid:1"
+				return
+			}
+			cfg.Pass = string(sc.Pass)
 			cfg.SSL = sc.SSL
 		}})
 	defer tc.shutdown()
+	if sc.LateConfig {
+		// "Changing these after connection will have no effect until the client reconnects" - so
+		// changing them before the first Connect must take effect
+		cfg := tc.C.Config()
+		cfg.Server, cfg.Pass, cfg.SSL = sc.Server, string(sc.Pass), sc.SSL
+	}
 	disc := make(chan struct{}, 8)
 	tc.C.HandleFunc(client.DISCONNECTED, func(*client.Conn, *client.Line) { disc <- struct{}{} })
 	wantAddr := expectAddr(sc.Server, sc.SSL)
@@ -188,6 +204,21 @@ func runC18(sc *c18Scenario) *Violation {
 		base := len(conn.Written())
 		start := time.Now()
 		var wantPongs []string
+		backlogDone := make(chan struct{})
+		if sc.Backlog > 0 {
+			// the server stops reading and a user goroutine fills the output queue: PINGs arriving now
+			// must still be answered once the server reads again
+			conn.Gate(true)
+			go func() {
+				defer close(backlogDone)
+				for i := 0; i < sc.Backlog; i++ {
+					tc.C.Raw(fmt.Sprintf("BACKLOG %d", i))
+				}
+			}()
+			time.Sleep(2 * time.Millisecond)
+		} else {
+			close(backlogDone)
+		}
 		for _, l := range sc.Lines {
 			if !l.Ping {
 				conn.SendLine(string(l.Other))
@@ -203,8 +234,17 @@ func runC18(sc *c18Scenario) *Violation {
 			}
 			wantPongs = append(wantPongs, string(l.Token))
 		}
+		if sc.Backlog > 0 {
+			time.Sleep(2 * time.Millisecond)
+			conn.Gate(false)
+		}
 		if !tc.syncOut(stallTimeout()) {
 			return violationf("C18", "cycle %d: final PING never answered", cycle)
+		}
+		select {
+		case <-backlogDone:
+		case <-time.After(stallTimeout()):
+			return violationf("C18", "cycle %d: backlog sender never finished", cycle)
 		}
 		after, _ := SplitCRLF(conn.Written()[base:])
 		var pongs []string
@@ -286,6 +326,12 @@ func (sc *c18Scenario) classes() (cls []string, nontrivial bool) {
 	if sc.Cycles >= 2 {
 		nontrivial = true
 		cls = append(cls, "reconnect")
+	}
+	if sc.LateConfig {
+		cls = append(cls, "late_config")
+	}
+	if sc.Backlog > 0 {
+		cls = append(cls, "pings_behind_backlog")
 	}
 	cls = append(cls, fmt.Sprintf("pingfreq=%d", sc.PingFreqMS), fmt.Sprintf("ssl=%v", sc.SSL), fmt.Sprintf("capneg=%v", sc.CapNeg), fmt.Sprintf("pass=%v", sc.Pass != ""))
 	return uniqStrings(cls), nontrivial
